@@ -262,7 +262,8 @@ func (x *gen) usesNode(ref string, gr *sg.Grouping, feats []string, allMods []*s
 	}
 	var augTargets []target
 	for _, t := range ts {
-		if t.node.Kind == "container" || t.node.Kind == "list" || t.node.Kind == "case" {
+		// (a choice as the target: the nodes the augment adds are shorthand cases)
+		if t.node.Kind == "container" || t.node.Kind == "list" || t.node.Kind == "case" || t.node.Kind == "choice" {
 			augTargets = append(augTargets, t)
 		}
 	}
@@ -272,7 +273,8 @@ func (x *gen) usesNode(ref string, gr *sg.Grouping, feats []string, allMods []*s
 		a.Kids[0].Mandatory = ""
 		// (not together with a when on the augment: the nodes of the inner grouping may have a when of their own, and a
 		// node with two inherited when statements has no single-module spelling)
-		if len(x.vis) > 0 && g.Chance(1, 3, "auguses") {
+		// (a uses is no substatement of choice, so not of the augment of a choice either)
+		if len(x.vis) > 0 && t.node.Kind != "choice" && g.Chance(1, 3, "auguses") {
 			// a uses inside the augment of the uses: another grouping that neither is reached from the outer one
 			// (its nodes would appear twice) nor reaches it (that would be a cycle)
 			all := map[string]*sg.Grouping{}
